@@ -28,6 +28,7 @@ struct Root<'gc> {
     node: Gc<'gc, Node<'gc>>,
     plain: Gc<'gc, RefLock<i32>>,          // a parent whose type needs no tracing
     slot: Option<Child<'gc>>,              // a root field (mutate_root)
+    wlock: Gc<'gc, Lock<Option<GcWeak<'gc, u8>>>>,   // a lock that holds a WEAK pointer
 }
 #[derive(crate::Collect)]
 #[collect(no_drop)]
@@ -36,7 +37,7 @@ struct Node<'gc> { f: Lock<Option<Child<'gc>>>, w: Lock<Option<GcWeak<'gc, u8>>>
 fn new_arena() -> Arena<Rootable![Root<'_>]> {
     Arena::new(|mc| Root {
         lock: Gc::new(mc, Lock::new(None)), cell: Gc::new(mc, RefLock::new(None)), once: Gc::new(mc, OnceLock::new()),
-        node: Gc::new(mc, Node { f: Lock::new(None), w: Lock::new(None) }), plain: Gc::new(mc, RefLock::new(0)), slot: None,
+        node: Gc::new(mc, Node { f: Lock::new(None), w: Lock::new(None) }), plain: Gc::new(mc, RefLock::new(0)), slot: None, wlock: Gc::new(mc, Lock::new(None)),
     })
 }
 
@@ -100,6 +101,11 @@ path_harness!(k_path_gc_write_field_unlock_set, node, |mc, root, child| {
 });
 path_harness!(k_path_gc_unlock, lock, |mc, root, child| { root.lock.unlock(mc).set(Some(child)); });
 path_harness!(k_path_lock_set, lock, |mc, root, child| { root.lock.set(mc, Some(child)); });
+// the same setters adopting a WEAK pointer (the barrier must not depend on what kind of pointer the new value holds)
+path_harness!(k_path_lock_set_weak, wlock, |mc, root, child| { root.wlock.set(mc, Some(Gc::downgrade(child))); });
+path_harness!(k_path_gc_write_field_unlock_set_weak, node, |mc, root, child| {
+    crate::barrier::unlock!(Gc::write(mc, root.node), Node, w).set(Some(Gc::downgrade(child)));
+});
 path_harness!(k_path_reflock_borrow_mut, cell, |mc, root, child| { *root.cell.borrow_mut(mc) = Some(child); });
 path_harness!(k_path_reflock_try_borrow_mut, cell, |mc, root, child| { *root.cell.try_borrow_mut(mc).unwrap() = Some(child); });
 path_harness!(k_path_oncelock_set, once, |mc, root, child| { let r = root.once.set(mc, child); assert!(r.is_ok()); });
